@@ -22,16 +22,22 @@ CHILD = os.path.join(os.path.dirname(os.path.dirname(os.path.abspath(__file__)))
 OPS = ['def', 'use_const', 'use_label', 'use_alias', 'def_nd', 'use_const_nd', 'use_label_nd', 'use_alias_nd', 'fail_parse', 'fail_const', 'fail_enc', 'fail_data', 'ok_c', 'ok_u', 'many', 'board1', 'board2', 'incX', 'incY', 'path_A', 'path_B']
 
 
+OBSERVERS = ['use_const', 'use_label', 'use_alias', 'use_const_nd', 'use_label_nd', 'use_alias_nd', 'board2', 'incY', 'path_B']
+
+
 def child(hist, hashseed='0', tag='h'):
     scratch = os.path.join(kernel.scratch('_c16'), tag)
     env = dict(os.environ)
     env.pop('PYTHONHASHSEED', None)
     if hashseed is not None:
         env['PYTHONHASHSEED'] = str(hashseed)
-    p = subprocess.run(['/venv/bin/python', CHILD, json.dumps(hist), scratch], capture_output=True, text=True, env=env)
-    if p.returncode != 0:
-        raise RuntimeError('child failed: ' + p.stderr[-2000:])
-    return json.loads(p.stdout)
+    for attempt in (1, 2, 3):
+        p = subprocess.run(['/venv/bin/python', CHILD, json.dumps(hist), scratch], capture_output=True, text=True, env=env)
+        if p.returncode == 0:
+            return json.loads(p.stdout)
+        # the child only fails when the interpreter itself could not run the history (fork / memory pressure on a loaded machine, or a tree that does not import):
+        # retry, then give up loudly - this is a harness failure (exit 2), never a verdict
+    raise RuntimeError('child failed %d times: %s' % (attempt, p.stderr[-2000:]))
 
 
 def strip(r):
@@ -145,10 +151,11 @@ def run(tier, seed, t0):
             raise RuntimeError('alphabet broken: %s succeeds alone' % op)
     if tier == 'quick':
         # all histories of length 2, and all of length 3 that end in a call able to observe leaked constants / labels / aliases / search paths / file contents
-        obs = ['use_const', 'use_label', 'use_alias', 'use_const_nd', 'use_label_nd', 'use_alias_nd', 'board2', 'incY', 'path_B']
+        obs = OBSERVERS
         hists = [list(h) for h in itertools.product(OPS, repeat=2)] + [list(h) + [o] for h in itertools.product(OPS, repeat=2) for o in obs]
     else:
-        hists = [list(h) for h in itertools.product(OPS, repeat=depth)]
+        # all histories of length 3, and all of length 4 that end in an observer call
+        hists = [list(h) for h in itertools.product(OPS, repeat=3)] + [list(h) + [o] for h in itertools.product(OPS, repeat=3) for o in OBSERVERS]
     tasks = [dict(hists=ch, fresh=fresh) for ch in kernel.chunks(hists, 40)]
     m = kernel.explore(history_task, tasks)
     seeds = ['0', '1', '2', '3', '42', str(1000 + seed % 100000), None]
@@ -159,10 +166,10 @@ def run(tier, seed, t0):
     cov = dict(states=n['calls'], transitions=n['calls'], traces_validated_against_impl=n['histories'] + n['seed_runs'],
                evaluations=n['calls'], distinct_nontrivial=n['histories'],
                rule='one history = one fresh interpreter executing up to %d assemble() calls; states counts (history, step) pairs compared with the fresh-interpreter result of the same call; '
-                    '%s' % (depth, 'every history of length %d over the %d-call alphabet is executed (all shorter histories are its prefixes)' % (depth, len(OPS)) if tier == 'thorough' else
+                    '%s' % (depth, 'all histories of length 3 over the %d-call alphabet and all of length 4 ending in one of 9 observer calls' % len(OPS) if tier == 'thorough' else
                             'all histories of length 2 over the %d-call alphabet and all of length 3 ending in one of 9 observer calls' % len(OPS)),
                exhaustive=True, depth=depth, alphabet=OPS, distinct_module_states=nstates, hash_seeds=[s if s is not None else 'unset' for s in seeds],
-               bound=('all %d^%d histories' % (len(OPS), depth) if tier == 'thorough' else 'all %d^2 histories of length 2 + %d^2 x 9 of length 3' % (len(OPS), len(OPS))) + '; 7 hash seeds x (%d API calls + command line with -l / --hex-offset and four -i directories, with and without -v)' % len(OPS))
+               bound=('all %d^3 histories of length 3 + %d^3 x 9 of length 4' % (len(OPS), len(OPS)) if tier == 'thorough' else 'all %d^2 histories of length 2 + %d^2 x 9 of length 3' % (len(OPS), len(OPS))) + '; 7 hash seeds x (%d API calls + command line with -l / --hex-offset and four -i directories, with and without -v)' % len(OPS))
     del m.sets['states']
     return kernel.finish(PROP, tier, seed, t0, m, cov, [
         'the fresh-interpreter result of the same call is the reference (differential, no hand-written expectation)',
